@@ -7,7 +7,7 @@ RULE = ("every acyclic ADMG(n) and ancestral ANC(n) graph, n<=3 quick / n<=4 tho
         "repeated under the label families str (multi-character), tuple, char, frozenset, bigint; random graphs 5<=n<=7 with "
         "3 pairs, random I inside R and every Z between I and R. distinct by (canonical graph, label family); non-trivial = "
         "some query has a non-empty minimal separator and some query has none")
-EXHAUSTIVE = {"quick": "ADMG(n), ANC(n) n<=3: all (x,y), I<=R<=V-{x,y}, Z<=V-{x,y}", "thorough": "same, n<=4"}
+EXHAUSTIVE = {"quick": "ADMG(n), ANC(n) n<=3 and DAG(4): all (x,y), I<=R<=V-{x,y}, Z<=V-{x,y}", "thorough": "same, n<=4"}
 TRUSTED = ["networkx copy / remove_node / neighbors taken at face value",
            "judgement of the returned set is by the brute-force oracle msep_dec (n<=4..5) and by the C01 model msep_model (larger)"]
 ASSUMPTIONS = ["default edge-type names", "acyclic directed layer (domain of C01)", "I inside R inside V-{x,y} (quantifier of C11)"]
@@ -62,6 +62,10 @@ def gen_cases(tier, rng):
                 if n <= 3:
                     small.append(c)
                 yield c
+    if tier == "quick":
+        # one exhaustive 4-node class also in the quick tier (the Z' defect needs four nodes)
+        for g in gr.enum_dag(4):
+            yield {"kind": "dag4", "g": g, "qs": queries_all(g["V"], ordered=False), "oracle": True}
     # label families: the failure "node used as an iterable" depends on the label type
     for j, c in enumerate(small):
         for lab in LABS:
